@@ -110,6 +110,12 @@ def render_expr(e):
         return '(let ' + e[1] + ' = ' + render_expr(e[2]) + ' in ' + render_expr(e[3]) + ')'
     if k == 'call':
         return e[1] + '(' + ', '.join(render_expr(x) for x in e[2:]) + ')'
+    if k == 'kwcall':
+        return e[1] + '(' + ', '.join('%s=%s' % (kw, render_expr(v)) for kw, v in e[2]) + ')'
+    if k == 'num':
+        return str(e[1])
+    if k == 'repn':
+        return '(' + render_expr(e[1]) + '){' + e[2] + '}'
     if k == 'optable':
         rows = []
         for assoc, ops in e[2]:
@@ -169,8 +175,12 @@ def render_module(m, name=None, extends=None):
 
 def children(e):
     k = e[0]
-    if k in ('lit', 're', 'ref', 'super', 'py', 'hook', 'byte', 'bre', 'blit', 'liti'):
+    if k in ('lit', 're', 'ref', 'super', 'py', 'hook', 'byte', 'bre', 'blit', 'liti', 'num'):
         return []
+    if k == 'repn':
+        return [e[1]]
+    if k == 'kwcall':
+        return [v for _, v in e[2]]
     if k in ('seq', 'alt', 'longest', 'skip'):
         return list(e[1:])
     if k in ('opt', 'star', 'plus', 'expect', 'expectnot'):
@@ -215,7 +225,7 @@ def refs_in_item(it):
         for n in walk(ex):
             if n[0] in ('ref', 'super'):
                 out.append((n[0], n[1]))
-            elif n[0] == 'call':
+            elif n[0] in ('call', 'kwcall'):
                 out.append(('ref', n[1]))
     return out
 
@@ -264,7 +274,7 @@ def nullable(e, env):
         return nullable(e[2], env)
     if k == 'let':
         return nullable(e[2], env) and nullable(e[3], env)
-    if k == 'call':
+    if k in ('call', 'kwcall', 'num', 'repn'):
         return True
     if k == 'optable':
         return nullable(e[1], env)
@@ -461,7 +471,7 @@ class Gen:
             if r.random() < p:
                 return [r.choice(['hookv', 'hookv', 'hookp']), self.new_tag(), e]
             return e
-        if k in ('py', 'hook', 'optable', 'call'):
+        if k in ('py', 'hook', 'optable', 'call', 'kwcall', 'num', 'repn'):
             return e
         out = list(e)
         if k in ('seq', 'alt', 'longest', 'skip'):
@@ -580,7 +590,7 @@ def gen_root(rng, named, n_rules=None, hook_p=0.5, ignore=None, features=None, c
 
 
 def gen_child(rng, parent_gen, hook_p=0.4, ignore=None, allow_super=True, force=(), override_ignore_p=0.0,
-              respell_start_p=0.0, force_body=None):
+              respell_start_p=0.0, force_body=None, force_items=()):
     """A module spec extending the module described by parent_gen.table.
     Returns (spec, gen) where gen.table is the effective table of the child."""
     g = Gen(rng, parent_gen.features)
@@ -652,6 +662,8 @@ def gen_child(rng, parent_gen, hook_p=0.4, ignore=None, allow_super=True, force=
             items.append(it)
             info['kind'] = 'rule'
         info['nullable'] = nullable(body, g._env())
+    for it in force_items:
+        items.append(dict(it))
     if not items:
         nm = 'N%d_x' % g.tagn
         items.append({'k': 'rule', 'name': nm, 'expr': g._terminal(True)})
@@ -698,6 +710,12 @@ def gen_child(rng, parent_gen, hook_p=0.4, ignore=None, allow_super=True, force=
     return spec, g
 
 
+# overrides of the two-parameter rule Cn(p, q) of the kind-matrix grammars
+CN_OVERRIDES = [
+    {'k': 'rule', 'name': 'Cn', 'params': ['q', 'p'], 'expr': ['seq', ['repn', ['lit', 'd'], 'q'], ['repn', ['lit', 'l'], 'p']]},
+    {'k': 'rule', 'name': 'Cn', 'params': ['q', 'p'], 'expr': ['seq', ['repn', ['lit', 'l'], 'p'], ['lit', '-'], ['repn', ['lit', 'd'], 'q']], 'override': True},
+    {'k': 'rule', 'name': 'Cn', 'params': ['p', 'q'], 'expr': ['seq', ['repn', ['lit', 'd'], 'q'], ['repn', ['lit', 'l'], 'p']], 'override': True},
+]
 NULLABLE_X_BASES = [['star', ['lit', 'x']], ['opt', ['lit', 'x']], ['sep', ['lit', 'x'], ['lit', ',']], ['re', 'x*'],
                     ['skip', ['lit', 'x']], ['rep', ['lit', 'x'], 0, 2]]
 FAILING_X_OVERRIDES = [['lit', 'x'], ['plus', ['lit', 'x']], ['where', ['super', 'X'], 'lambda v: bool(v)'],
@@ -773,15 +791,24 @@ def kind_matrix_root(rng, ignore=None, nullable_x=False):
             ['sep', ['ref', 'O'], X],
             ['seq', ['opt', ['lit', 'q']], ['alt', ['seq', X, ['lit', '!']], ['seq', X, ['lit', '?']], X]],
         ]
+    # a parameterised rule with two VALUE parameters, called by keyword, by position and with the keywords in the
+    # other order: a derived grammar may override it with the parameters listed in another order
+    ctxs += [
+        ['kwcall', 'Cn', [['p', ['num', 2]], ['q', ['num', 1]]]],
+        ['call', 'Cn', ['num', 1], ['num', 2]],
+        ['seq', ['kwcall', 'Cn', [['q', ['num', 2]], ['p', ['num', 1]]]], ['lit', '!']],
+    ]
     g = Gen(rng, features=['classes', 'sep', 'lookahead', 'apply', 'where', 'longest', 'template', 'optable', 'let', 'skip', 'rep'])
     g.max_rep_lo = 1
     g.lits = ['a', 'b', 'c', '!', '?', ',']
     g.res = ['[ab]+']
     tags = '0123456789ABCDEFGHIJKLMNOPQRSTUVWXYZ'
     items = [{'k': 'rule', 'name': 'Tw', 'params': ['x'], 'expr': ['left', ['right', ['lit', '('], ['ref', 'x']], ['lit', ')']]},
-             {'k': 'rule', 'name': 'Pt', 'params': ['x'], 'expr': ['left', ['ref', 'x'], ['opt', ['lit', '?']]]}]
+             {'k': 'rule', 'name': 'Pt', 'params': ['x'], 'expr': ['left', ['ref', 'x'], ['opt', ['lit', '?']]]},
+             {'k': 'rule', 'name': 'Cn', 'params': ['p', 'q'], 'expr': ['seq', ['repn', ['lit', 'l'], 'p'], ['repn', ['lit', 'd'], 'q']]}]
     g.table['Tw'] = {'rank': -1.0, 'nullable': False, 'kind': 'template'}
     g.table['Pt'] = {'rank': -1.0, 'nullable': True, 'kind': 'template', 'arg_leftmost': True}
+    g.table['Cn'] = {'rank': -1.0, 'nullable': True, 'kind': 'template'}
     alts = []
     n = len(ctxs)
     g.table['X'] = {'rank': float(n + 5), 'nullable': bool(nullable_x), 'kind': 'rule'}
@@ -1073,6 +1100,20 @@ class Sampler:
                 return []
             b = dict(zip(it.get('params') or [], e[2:]))
             return self.expr(it['expr'], depth + 1, b)
+        if k == 'kwcall':
+            it = self.rules.get(e[1])
+            if it is None or depth > self.maxdepth + 4:
+                return []
+            return self.expr(it['expr'], depth + 1, {kw: v for kw, v in e[2]})
+        if k == 'num':
+            return []
+        if k == 'repn':
+            v = (bind or {}).get(e[2])
+            n = v[1] if (v and v[0] == 'num') else 1
+            out = []
+            for _ in range(n):
+                out += self.expr(e[1], depth + 1, bind)
+            return out
         if k == 'optable':
             return self._optable(e, depth, bind)
         raise ValueError(k)
